@@ -47,7 +47,7 @@ func suiteSerde(rn *runner, r *rng, tier string) {
 		cfg.maxDepth = 1 + cr.intn(4)
 		nd := cr.chance(1, 3) && i%150 != 7
 		var text string
-		repetitive := false
+		repetitive, sameSer := false, false
 		switch {
 		case nd:
 			text, _ = cr.ndjson(cfg, 1+cr.intn(5), false)
@@ -71,6 +71,11 @@ func suiteSerde(rn *runner, r *rng, tier string) {
 			el := []string{"0", "1234567", "true", "\"a\"", "null", "{}"}[cr.intn(6)]
 			text = "[" + strings.Repeat(el+",", k-1) + el + "]"
 			repetitive = true
+		case i%100 == 33:
+			// more than 64 Ki tags and next to no values (the two scratch buffers of the Serializer start at 64 KiB each
+			// and grow independently), written and read back by ONE Serializer
+			text = cr.literals([]int{65530, 65540, 66000, 70000, 100000, 131000, 131100, 200000}[cr.intn(8)] + cr.intn(3))
+			sameSer = true
 		case cr.chance(1, 8):
 			// tags outnumber values: varint size classes of the two blocks differ
 			text = cr.literals([]int{100, 120, 125, 127, 128, 129, 200, 1000, 2000, 16384, 16500}[cr.intn(11)] + cr.intn(3))
@@ -115,6 +120,9 @@ func suiteSerde(rn *runner, r *rng, tier string) {
 		}
 		if reuseKind >= 1 {
 			nextSerde.s1, nextSerde.s2 = sA, sB
+		}
+		if sameSer || cr.chance(1, 10) {
+			nextSerde.s1, nextSerde.s2 = sA, sA // the same Serializer in both directions
 		}
 		if reuseKind == 2 {
 			nextSerde.dst = dstReuse
